@@ -507,6 +507,11 @@ pub struct IxCase {
     pub liquidity_bits: u8,
     pub trade_enable_delay: Option<u16>,
     pub swaps: Vec<(bool, bool, u64, u32)>,
+    /// (before swap #, field mask, values): the fee authority changes the pool's adaptive-fee constants in mid-history.  Mask bits 0..6 =
+    /// filter, decay, reduction, control factor, maximum accumulator, group size, major-swap threshold; bit 7 = the maximum accumulator is
+    /// set relative to the STORED accumulator (values.max_volatility_accumulator per mille of it)
+    #[serde(default)]
+    pub sets: Vec<(u8, u8, AfConstants)>,
 }
 
 pub fn check_ix(c: &IxCase, l: &mut Local) -> Result<(), String> {
@@ -546,7 +551,7 @@ pub fn check_ix(c: &IxCase, l: &mut Local) -> Result<(), String> {
     if !w.exec(&ix).ok() {
         return Ok(());
     }
-    let k = w.oracle_state(p).ok_or("oracle account missing")?.constants;
+    let mut k = w.oracle_state(p).ok_or("oracle account missing")?.constants;
     // trading is refused before the trade-enable time and allowed from it on
     if let Some(te) = te {
         let stored = w.oracle_state(p).unwrap().trade_enable_timestamp;
@@ -571,7 +576,69 @@ pub fn check_ix(c: &IxCase, l: &mut Local) -> Result<(), String> {
         l.count("swap_allowed_at_trade_enable");
     }
     let mut checked = 0;
-    for (a_to_b, exact_in, amount, dt) in &c.swaps {
+    for (i, (a_to_b, exact_in, amount, dt)) in c.swaps.iter().enumerate() {
+        for (_, mask, v) in c.sets.iter().filter(|(at, _, _)| *at as usize == i) {
+            let pre_o = w.oracle_state(p).unwrap();
+            let on = |bit: u8| mask & (1 << bit) != 0;
+            let new_max = if on(7) { Some((pre_o.variables.volatility_accumulator as u64 * (v.max_volatility_accumulator % 1001) as u64 / 1000) as u32) } else if on(4) { Some(v.max_volatility_accumulator) } else { None };
+            let ix = w.ix_set_adaptive_fee_constants(
+                p,
+                on(0).then_some(v.filter_period),
+                on(1).then_some(v.decay_period),
+                on(2).then_some(v.reduction_factor),
+                on(3).then_some(v.adaptive_fee_control_factor),
+                new_max,
+                on(5).then_some(v.tick_group_size),
+                on(6).then_some(v.major_swap_threshold_ticks),
+            );
+            let o = w.exec(&ix);
+            let post_o = w.oracle_state(p).unwrap();
+            if !o.ok() {
+                if post_o != pre_o {
+                    return Err("oracle changed by a rejected set_adaptive_fee_constants".into());
+                }
+                l.count(&format!("set_constants_rejected/{}", o.code().unwrap_or(0)));
+                continue;
+            }
+            let mut want = k.clone();
+            if on(0) { want.filter_period = v.filter_period }
+            if on(1) { want.decay_period = v.decay_period }
+            if on(2) { want.reduction_factor = v.reduction_factor }
+            if on(3) { want.adaptive_fee_control_factor = v.adaptive_fee_control_factor }
+            if let Some(m) = new_max { want.max_volatility_accumulator = m }
+            if on(5) { want.tick_group_size = v.tick_group_size }
+            if on(6) { want.major_swap_threshold_ticks = v.major_swap_threshold_ticks }
+            if post_o.constants != want {
+                return Err(format!("set_adaptive_fee_constants (mask {mask:#x}) stored {:?}, the named fields replaced give {:?}", post_o.constants, want));
+            }
+            let ak = AfConstants { filter_period: want.filter_period, decay_period: want.decay_period, reduction_factor: want.reduction_factor, adaptive_fee_control_factor: want.adaptive_fee_control_factor, max_volatility_accumulator: want.max_volatility_accumulator, tick_group_size: want.tick_group_size, major_swap_threshold_ticks: want.major_swap_threshold_ticks };
+            if !super::c20::constants_valid(ts, &ak) {
+                return Err(format!("set_adaptive_fee_constants accepted constants that break the validity rules: {want:?}"));
+            }
+            // the state every later swap starts from: accumulator and reference within the (new) maximum, reference group inside the tick range
+            let vv = &post_o.variables;
+            if vv.volatility_accumulator > want.max_volatility_accumulator || vv.volatility_reference > vv.volatility_accumulator {
+                return Err(format!(
+                    "after set_adaptive_fee_constants the stored accumulator {} / reference {} exceed the configured maximum {} (before: accumulator {}, maximum {})",
+                    vv.volatility_accumulator, vv.volatility_reference, want.max_volatility_accumulator, pre_o.variables.volatility_accumulator, pre_o.constants.max_volatility_accumulator
+                ));
+            }
+            let gs = want.tick_group_size as i32;
+            if vv.tick_group_index_reference < (-443636i32).div_euclid(gs) || vv.tick_group_index_reference > 443636i32.div_euclid(gs) {
+                return Err(format!("after set_adaptive_fee_constants the stored reference group {} lies outside the tick range for group size {gs}", vv.tick_group_index_reference));
+            }
+            if post_o.trade_enable_timestamp != pre_o.trade_enable_timestamp || post_o.whirlpool != pre_o.whirlpool {
+                return Err("set_adaptive_fee_constants changed the oracle's trade-enable time / pool".into());
+            }
+            l.count("set_constants_ok");
+            if pre_o.variables.volatility_accumulator > want.max_volatility_accumulator {
+                l.count("set_constants_ok_maximum_lowered_below_the_stored_accumulator");
+            }
+            if want.tick_group_size != k.tick_group_size && pre_o.variables.volatility_accumulator > 0 {
+                l.count("set_constants_ok_group_size_changed_on_a_volatile_pool");
+            }
+            k = want;
+        }
         w.advance_clock(*dt as i64);
         let pre_o = w.oracle_state(p).unwrap();
         let pre_pool = w.pool_state(p);
@@ -613,9 +680,10 @@ fn ix_case() -> BoxedStrategy<IxCase> {
                 24u8..60,
                 prop_oneof![2 => Just(None), 2 => (1u16..5000).prop_map(Some), 1 => Just(Some(0u16))],
                 prop::collection::vec((any::<bool>(), any::<bool>(), (8u32..48, any::<u64>()).prop_map(|(b2, r)| (r >> (64 - b2)) | (1u64 << (b2 - 1))), prop_oneof![2 => 0u32..5, 2 => 0u32..700, 1 => 3500u32..3700]), 1..8),
+                prop::collection::vec((1u8..8, prop_oneof![3 => (0u8..7).prop_map(|b| 1u8 << b), 2 => Just(0x80u8), 2 => any::<u8>()], valid_constants(ts)), 0..3),
             )
         })
-        .prop_map(|(tick_spacing, constants, fee_rate, start_tick, liquidity_bits, trade_enable_delay, swaps)| IxCase { tick_spacing, constants, fee_rate, start_tick, liquidity_bits, trade_enable_delay, swaps })
+        .prop_map(|(tick_spacing, constants, fee_rate, start_tick, liquidity_bits, trade_enable_delay, swaps, sets)| IxCase { tick_spacing, constants, fee_rate, start_tick, liquidity_bits, trade_enable_delay, swaps, sets })
         .boxed()
 }
 
@@ -639,7 +707,7 @@ pub fn def() -> CheckDef {
             sub("rate_function", 24_000_000, 1_000_000_000, rate_case, |c: &RateCase, l: &mut Local| check_rate(c, l)),
             sub("schedule", 1_500_000, 50_000_000, adaptive_case, |c: &SimCase, l: &mut Local| check_schedule(c, l)),
             sub("zero_control_factor", 600_000, 10_000_000, adaptive_case, |c: &SimCase, l: &mut Local| check_zero_cf(c, l)),
-            sub("oracle_account_and_trade_enable", 20_000, 300_000, ix_case, |c: &IxCase, l: &mut Local| check_ix(c, l)),
+            sub("oracle_account_and_trade_enable", 60_000, 600_000, ix_case, |c: &IxCase, l: &mut Local| check_ix(c, l)),
         ],
     }
 }
